@@ -363,7 +363,7 @@ Section Flat.
     cbn [array_of_scalars] in A.
     unfold resolve at 1 in A. rewrite (resolve_fuel_nonref _ _ _ (payload_not_ref _ _ _ P)) in A.
     destruct pt as [| a et | | | | | | | | |]; try discriminate A.
-    pose proof (payload_supported _ _ _ Hc S P) as Se. simpl in Se.
+    pose proof (payload_supported _ _ _ Hc S P) as Se. simpl in Se. apply andb_true_iff in Se. destruct Se as [_ Se].
     rewrite jsfree_unfold, P. destruct j; try reflexivity.
     apply forallb_forall. intros x _.
     destruct (resolve ctx et) as [rt|] eqn:R; [|discriminate A].
@@ -560,6 +560,7 @@ Section Sound.
         assert (H' : sv_arr ctx t pt j = SOk v) by (destruct src; try discriminate H; exact H).
         clear H. unfold sv_arr in H'. destruct j; try discriminate H'; try discriminate NF.
         simpl in WF, NF. rewrite forallb_forall in WF, NF. rewrite Forall_forall in IH. simpl in Sp.
+        apply andb_true_iff in Sp. destruct Sp as [_ Sp].
         destruct (is_ref t && t_nullable t)%bool.
         * destruct l; [reflexivity|]. simpl in H'. destruct (strict_val ctx RElem j pt); discriminate H'.
         * destruct (seq_results (map (fun x => strict_val ctx RElem x pt) l) [] false) as [stop|[vals err]] eqn:SR.
@@ -705,6 +706,7 @@ Section Complete.
     - (* array *)
       unfold so_simple in F. unfold rs_simple in R. unfold dec_simple.
       destruct j; try discriminate F. simpl in IH, NF, S.
+      apply andb_true_iff in S. destruct S as [_ S].
       apply andb_true_iff in R. destruct R as [R _].
       rewrite forallb_forall in F, R, NF. rewrite Forall_forall in IH.
       destruct (first_bad _) as [b|] eqn:FB; [|discriminate].
@@ -846,7 +848,8 @@ Section Complete.
         rewrite A in R'. simpl orb in R'.
         apply andb_true_iff in R'. destruct R' as [R1 R2]. apply andb_true_iff in R2. destruct R2 as [R2 R3].
         assert (G : sok_or_unm (sv_arr ctx t pt (JArr l))).
-        { unfold sv_arr. simpl in IH, NF, Sp. rewrite forallb_forall in K', R1, NF. rewrite Forall_forall in IH.
+        { unfold sv_arr. simpl in IH, NF, Sp. apply andb_true_iff in Sp. destruct Sp as [_ Sp].
+          rewrite forallb_forall in K', R1, NF. rewrite Forall_forall in IH.
           destruct (is_ref t && t_nullable t)%bool.
           - simpl in R3. destruct l; [left; exists GNil; reflexivity|discriminate R3].
           - assert (F : Forall sok_or_unm (map (fun x => strict_val ctx RElem x pt) l)).
